@@ -22,8 +22,8 @@ PROPS["C02"] = dict(units=["ark_encoding"], assumptions=[A_ARK1, A_ARK2, M_DECAF
     not_decided=["Compress::No / Validate::No arms are unimplemented!() in /repo"])
 PROPS["C03"] = dict(units=["ark_encoding"], assumptions=[A_ARK1, A_ARK2, M_DECAF, C09_CONTRACT, A_STD, M_LE32, A_WF],
     explanation="vartime_compress_to_field == spec_encode(X,Y,Z,T) for arbitrary coordinates; bytes are the canonical LE form with top three bits clear; all serialisation forms agree")
-PROPS["C01"] = dict(units=["ark_encoding"], assumptions=[A_ARK1, A_ARK2, M_DECAF, C09_CONTRACT, A_STD, M_LE32, A_WF],
-    explanation="round trip = lemma over the two refinements (encode == spec_encode, decode == spec_decode) + M-DECAF")
+PROPS["C01"] = dict(units=["ark_encoding", "ark_element"], assumptions=[A_ARK1, A_ARK2, M_DECAF, C09_CONTRACT, A_STD, M_LE32, A_WF],
+    explanation="round trip = lemma over the two refinements (encode == spec_encode, decode == spec_decode) + M-DECAF; `==` on elements (what 'equal to the original' means) is spec_eq")
 
 M_GROUP = "M-GROUP: valid points under te_add modulo spec_eq form a group of order r; te_add complete for a=-1, d=3021; smul additive (statements about spec functions)"
 PROPS["C04"] = dict(units=["ark_ops", "ark_encoding"], assumptions=[A_ARK2, M_GROUP, A_WF, A_STD],
@@ -114,6 +114,18 @@ for _p in ("C10", "C11", "C12"):
 from vx import kani_lazy as _kani_lazy
 PROPS["C13"]["engines"] = [_kani_lazy.engine()]
 PROPS["C13"]["checker_extra"] = "cargo kani --harness proofs::h_lazy_from_{encoding,element} in build/kani_lazy (verbatim lazy.rs via #[path])"
+
+# every unit that calls Fq::sqrt_ratio_zeta through its contract (the prelude stub of ark_curve_misc.rs / r1cs.rs) depends on
+# the unit that proves that contract: its obligations count for the calling property too (seeded C07_c hid a defect there)
+for _p, _s in PROPS.items():
+    if _p != "C09" and any(u in ("ark_encoding", "ark_elligator", "ark_element", "r1cs_sound", "r1cs_compl") for u in _s["units"]):
+        _s["units"] = list(_s["units"]) + ["ark_invsqrt"]
+        _s.setdefault("tag_alias", {})["ark_invsqrt"] = ["C09"]
+# C12 (the two builds compute the same thing) is broken by a defect in either build: every obligation of its units counts
+PROPS["C12"]["units"] = list(PROPS["C12"]["units"]) + [u for u in ("fieldx_fq", "fieldx_fr", "fieldx_fp", "ops_fq", "ops_fr", "ops_fp") if u not in PROPS["C12"]["units"]]
+PROPS["C12"].setdefault("tag_alias", {}).update({u: ["*"] for u in PROPS["C12"]["units"]})
+# C17: the constants of the 32-bit backend are built through from_montgomery_limbs (tagged C17 in the wrapper units)
+PROPS["C17"]["units"] = list(PROPS["C17"]["units"]) + [f"wrap{b}_{f}" for b in ("64", "32") for f in ("fq", "fr", "fp")]
 
 # bounded stand-ins (thorough tier only; never counted as proved): probes of /verif/replay_runner against the real crate
 _F = [("ark", "field.fq"), ("ark", "field.fr"), ("ark", "field.fp"), ("min", "field.fq"), ("min", "field.fr"), ("min", "field.fp")]
